@@ -98,7 +98,19 @@ def run(res, args):
             dcases.append("display %s %d 65536" % (gen.hx(s), lat))
             meta.append((s, lat))
             res.count("displayrtcm3/rtcmfilter: 5-16 large MSM messages (2-6 KB of text each) behind an 8-20 ms writer")
-    ins = ins + slow + quiet + several + big
+    # inputs with messages but without a single valid RTCM frame (text only, random bytes, a truncated frame, a frame
+    # with a damaged CRC): "every message derived from the input" includes the non-RTCM ones that displayrtcm3 shows
+    norm = [gen.NMEA[0] + gen.NMEA[1], gen.hostile_stream(rng, 200).replace(b"\xd3", b"\x33"), gen.rand_frame(rng, small=True)[:-2],
+            gen.corrupt(rng, gen.rand_frame(rng, small=True), "crc"), b"$"]
+    if res.tier != "quick":
+        norm += [gen.rand_junk(rng) for _ in range(10)]
+    for k, s in enumerate(norm):
+        lat = [20000, 150000, 20000, 2000, 300000][k % 5]
+        fcases.append("filter %s 1 1 %d 4096" % (gen.hx(s), lat))
+        dcases.append("display %s %d 4096" % (gen.hx(s), lat))
+        meta.append((s, lat))
+        res.count("input without any valid RTCM frame")
+    ins = ins + slow + quiet + several + big + norm
     # expected output from sequential framing (model), cross-checked with the implementation's stream handler
     scases = ["stream %d debug %s" % (framing.T0, gen.hx(s)) for s in ins]
     simpl, smodel = framing.run_both(res, "stream", scases)
